@@ -41,6 +41,9 @@ def ordered_calls(ck, prog, F, chain, rule):
         may = L.sites(F, name, "may")
         present[name] = bool(may)
         where = site(prog, may[0] if may else F, name)
+        if not may and prog.fn(name, required=False) is None and name not in ("qsort", "omp_set_num_threads"):
+            raise AnalysisBroken("%s slot: the stage function %s no longer exists (renamed or merged): which call of %s plays its part is "
+                                 "not decided" % (rule, name, F.name))
         if not may:
             ck.violation(rule, "%s/%s/%s-missing" % (rule, F.name, name), site(prog, F),
                          "%s never calls %s (neither directly nor through a helper)" % (F.name, name), prog.config)
